@@ -8,6 +8,18 @@ claims = {
  "C10": ("proof","Every accumulation step is proved exact against the saturating decimal spec satdec: CSeq, Content-Length, Expires header, Contact expires (saturating at 2^32-1), via loop invariants acc == satdec(digits so far).",
          "satdec is an uninterpreted specification function whose two unfolding equations are axioms (trusted); q parameter, status code and URI port are covered by C08/C14 clauses when those functions are under contract (see evidence).",
          "contract-based deductive verification: loop invariants against a recursive spec function, SMT (QF_ABV + instantiated axioms)"),
+ "C08": ("proof","ParseFLine has no loop of its own: the exact decomposition of a request line (three tokens separated by single spaces, terminator, method number == table spec) and of a status line (case-insensitive SIP/2.0, three digits, status arithmetic, reason up to the terminator, never a request) are postconditions proved for every buffer and every entry state, over the verified contracts of skipToken/skipLine/skipCRLF/bytescase.Prefix/GetMethodNo.",
+         "Stated for a call that starts the line (state flInit on a zeroed PFLine); resumed calls are carried by the RES/EXT laws (C02/C03) when those are claimed.",
+         "contract-based deductive verification: unary postconditions, 8-way case split on the parser state, SMT"),
+ "C12": ("proof","Every Reset/Init has the postcondition 'all cells equal those of a newly created object, the caller's arrays kept with all elements zeroed'; for the list objects this uses the representation invariant 'elements beyond the one in progress are zero' and a loop invariant over the clearing loop. No precondition on how the object was used before.",
+         "PSIPMsg.Reset/Init and PHdrVals.Reset/Init are covered only through the contracts of their parts when not yet under contract themselves (see evidence: functions_not_under_contract). 'Behaves like a new object' follows from equal cells plus determinism of the parsers (no hidden state: global-write scan).",
+         "contract-based deductive verification: postconditions with quantified array facts, SMT"),
+ "C16": ("proof","GetHdrType/GetMethodNo are proved equal to the table specification for every name: result == type of the unique case-insensitively (resp. exactly) equal table entry, else other. The lookup tables are taken from the real program after its init (dumped on every run) and the proof is split into one case per hash bucket.",
+         "A-INIT: the dumped tables are the tables (init executed for real on every run; global-write scan shows nothing writes them later). 'The header parser assigns this classification' is the ParseHdrLine clause of C07.",
+         "contract-based deductive verification: loop invariants over concrete tables, 65/33-way case split, SMT"),
+ "C20": ("proof","IP4Prefix is proved to accept exactly the dotted-quad grammar (ok <==> ip4At), to stop at the specified end, to report what follows (end / digit / other) and to decode the four bytes exactly; ContainsIP4 is proved sound (the reported span is a dotted quad starting at o with the specified end).",
+         "Completeness of ContainsIP4 (no address anywhere ==> not found) is NOT proved: the quantified argument did not discharge; the evidence says so. dst must not share the backing array of buf.",
+         "contract-based deductive verification: 16-case loop invariant against a quantifier-free grammar spec, SMT"),
  "C18": ("proof","AdjustOffs/Long/Short/Truncate are straight-line 16-bit code: postconditions (moved-by-constant, refused-unchanged, fits-iff-ok, view ends) are proved for all well-formed parsed URIs, all target offsets and span lengths, case-split over the 64 presence patterns of the components.",
          "Precondition uriOK (component order as produced by ParseURI) is assumed here and is the C14 postcondition; Offs+Len <= 65535.",
          "contract-based deductive verification: unary postconditions on straight-line bit-vector code, SMT"),
